@@ -106,7 +106,8 @@ def delegates_rounding(fn):
         if p in INCR_PRIMS and p != fn.path and not fn.blocks[bi]["c"]:
             args = [pv.operand(a, bi, len(fn.blocks[bi]["s"])) for a in t["a"]]
             flag_ok = bool(args) and is_param(args[-1], "round_up")
-            return p, flag_ok and bool(cfg.result_checked(fn, bi) or t["d"]["l"] == 0)
+            # the result is propagated, or matched on (an Err mapped to a value of its own, like ExceedsMax, is still a decision)
+            return p, flag_ok and bool(cfg.result_checked(fn, bi) or t["d"]["l"] == 0 or cfg.result_ok_edge(fn, bi) is not None)
     return None
 
 
@@ -410,6 +411,9 @@ def _is_fixed(t):
     if s[0] == "call" and s[1] in (SM + "get_amount_fixed_delta",):
         return True
     if s[0] == "call" and s[1].endswith("AmountDeltaU64::value") and mentions(s, lambda x: x[0] == "call" and (x[1] == SM + "try_get_amount_fixed_delta" or _prim_flag(x) == "exact")):
+        return True
+    # the same value taken out by a match on the Valid variant
+    if s[0] == "payload" and s[2] == "Valid" and mentions(s[1], lambda x: x[0] == "call" and (x[1] == SM + "try_get_amount_fixed_delta" or _prim_flag(x) == "exact")):
         return True
     # the fixed side rounds as the mode says (up for an input, down for an output); which token: the polarity table (R1)
     return _prim_flag(s) == "exact"
@@ -792,7 +796,13 @@ def R6_reach_target_decision(run):
     run.check("R6", "reach-target", ok, "compute_swap does not take the target price exactly when initial_fixed_delta.lte(budget) and get_next_sqrt_price(..budget..) otherwise", loc=fn.loc(),
               detail="lte(budget) => next = target; else next = get_next_sqrt_price(current, liquidity, budget, ..)")
     re_at = [at for at in A.atoms(fn) if is_call(at.term, "AmountDeltaU64::exceeds_max") or any(is_call(x, "AmountDeltaU64::exceeds_max") for x in leaves(at.term))]
-    run.check("R6", "recompute-on-overflow", len(re_at) >= 1, "compute_swap no longer re-computes the fixed delta when the first estimate exceeded u64", loc=fn.loc(), detail="!is_max || exceeds_max() => recompute")
+    # `.value()` of the first estimate is only taken behind an exceeds_max() test; a match on the Valid variant carries that test
+    # in itself, and a delta that is always re-computed needs none
+    pv0 = prov_of(fn)
+    takes_value = any(callee_path(t).endswith("AmountDeltaU64::value") and mentions(pv0.operand(t["a"][0], bi, len(fn.blocks[bi]["s"])), lambda s: s[0] == "call" and s[1].endswith("try_get_amount_fixed_delta"))
+                      for bi, t in fn.calls() if callee_path(t) and not fn.blocks[bi]["c"])
+    run.check("R6", "recompute-on-overflow", len(re_at) >= 1 or not takes_value, "compute_swap no longer re-computes the fixed delta when the first estimate exceeded u64", loc=fn.loc(),
+              detail="!is_max || exceeds_max() => recompute" if re_at else "the first estimate is used through its Valid variant only")
 
 
 RULES = [R1_step_polarity, R1b_who_decides_overflow, R2_rounding_primitives, R3_next_price, R3b_from_b_formula, R4_fee_and_amounts, R5_exact_remainders, R6_reach_target_decision]
